@@ -553,3 +553,34 @@ package command
 //@   entry row scan:   [call parseRawOptions(_) as (e) ; call parseScanRange(_, args) as (r, e2) ; call getLogger(_, "elastic", _) as (lg, e3) ; call newElasticScanEngine(_, _) as (en) ; call startScanEngine(_, en, bind_cfg) as (se)]
 //@                        when e == nil && e2 == nil && e3 == nil && ret == se
 //@                          && atcall(cfg, cfg.logger == lg && cfg.exitDelay == c.opts.exitDelay && cfg.scanRange.DstSubnet == r.DstSubnet && cfg.scanRange.Ports == r.Ports) -> exit
+
+// icmp / udp scan methods: address (x port) generator, exclusion filter iff exclusions, ARP-cache stage iff a cache
+// exists, filler built from the command's options, method in the command's VPN mode; the filler options carry exactly
+// the parsed flag values, the payload option only for a non-empty payload (C05 C11 C17 C01)
+//@ func (*icmpCmdOpts).getICMPOptions
+//@   props C05
+//@   opaque icmp.WithTTL, icmp.WithIPProtocol, icmp.WithIPFlags, icmp.WithIPTotalLength, icmp.WithType, icmp.WithCode, icmp.WithVPNmode, icmp.WithPayload
+//@   entry row nopayload: [call icmp.WithTTL(o.ipTTL) as (a) ; call icmp.WithIPProtocol(o.ipProtocol) as (b) ; call icmp.WithIPFlags(o.ipFlags) as (c) ; call icmp.WithIPTotalLength(o.ipTotalLen) as (d) ;
+//@                         call icmp.WithType(o.icmpType) as (t) ; call icmp.WithCode(o.icmpCode) as (k) ; call icmp.WithVPNmode(o.vpnMode) as (v)]
+//@                          when len(o.icmpPayload) == 0 && len(ret) == 7 && ret[0] == a && ret[1] == b && ret[2] == c && ret[3] == d && ret[4] == t && ret[5] == k && ret[6] == v -> exit
+//@   entry row payload:   [call icmp.WithTTL(o.ipTTL) as (a) ; call icmp.WithIPProtocol(o.ipProtocol) as (b) ; call icmp.WithIPFlags(o.ipFlags) as (c) ; call icmp.WithIPTotalLength(o.ipTotalLen) as (d) ;
+//@                         call icmp.WithType(o.icmpType) as (t) ; call icmp.WithCode(o.icmpCode) as (k) ; call icmp.WithVPNmode(o.vpnMode) as (v) ; call icmp.WithPayload(o.icmpPayload) as (p)]
+//@                          when len(o.icmpPayload) > 0 && len(ret) == 8 && ret[0] == a && ret[1] == b && ret[2] == c && ret[3] == d && ret[4] == t && ret[5] == k && ret[6] == v && ret[7] == p -> exit
+//@ func (*udpCmdOpts).getUDPOptions
+//@   props C05
+//@   opaque udp.WithTTL, udp.WithIPProtocol, udp.WithIPFlags, udp.WithIPTotalLength, udp.WithVPNmode, udp.WithPayload
+//@   entry row nopayload: [call udp.WithTTL(o.ipTTL) as (a) ; call udp.WithIPProtocol(o.ipProtocol) as (b) ; call udp.WithIPFlags(o.ipFlags) as (c) ; call udp.WithIPTotalLength(o.ipTotalLen) as (d) ; call udp.WithVPNmode(o.vpnMode) as (v)]
+//@                          when len(o.udpPayload) == 0 && len(ret) == 5 && ret[0] == a && ret[1] == b && ret[2] == c && ret[3] == d && ret[4] == v -> exit
+//@   entry row payload:   [call udp.WithTTL(o.ipTTL) as (a) ; call udp.WithIPProtocol(o.ipProtocol) as (b) ; call udp.WithIPFlags(o.ipFlags) as (c) ; call udp.WithIPTotalLength(o.ipTotalLen) as (d) ; call udp.WithVPNmode(o.vpnMode) as (v) ;
+//@                         call udp.WithPayload(o.udpPayload) as (p)]
+//@                          when len(o.udpPayload) > 0 && len(ret) == 6 && ret[0] == a && ret[1] == b && ret[2] == c && ret[3] == d && ret[4] == v && ret[5] == p -> exit
+//@ func (*udpCmdOpts).newUDPScanMethod
+//@   props C05 C11 C17 C01 C03
+//@   observe getUDPOptions
+//@   opaque (*ipPortScanCmdOpts).newIPPortGenerator, arp.NewCacheRequestGenerator, udp.NewPacketFiller, scan.NewPacketMultiGenerator, scan.NewPacketSource, scan.NewResultChan, udp.NewScanMethod
+//@   entry row direct: [call newIPPortGenerator(_) as (g) ; call getUDPOptions(o) as (os) ; call udp.NewPacketFiller(os) as (pf) ; call scan.NewPacketMultiGenerator(bind_pf2, _) as (pg) ; call scan.NewPacketSource(g, bind_pg2) as (ps) ;
+//@                      call scan.NewResultChan(ctx, _) as (rc) ; call udp.NewScanMethod(ps, rc, o.vpnMode) as (m)]
+//@                       when o.cache == nil && isptr(pf2, udp.PacketFiller) && asptr(pf2, udp.PacketFiller) == pf && ret == m -> exit
+//@   entry row cached: [call newIPPortGenerator(_) as (g0) ; call newIPPortGenerator(_) as (g) ; call arp.NewCacheRequestGenerator(g, o.gatewayMAC, o.cache) as (g2) ; call getUDPOptions(o) as (os) ; call udp.NewPacketFiller(os) as (pf) ;
+//@                      call scan.NewPacketMultiGenerator(bind_pf2, _) as (pg) ; call scan.NewPacketSource(g2, bind_pg2) as (ps) ; call scan.NewResultChan(ctx, _) as (rc) ; call udp.NewScanMethod(ps, rc, o.vpnMode) as (m)]
+//@                       when o.cache != nil && isptr(pf2, udp.PacketFiller) && asptr(pf2, udp.PacketFiller) == pf && ret == m -> exit
